@@ -6,6 +6,7 @@ package tfx
 import (
 	"context"
 	"fmt"
+	"math/big"
 	"reflect"
 	"time"
 
@@ -270,3 +271,129 @@ func deref(v interface{}) interface{} {
 	}
 	return rv.Interface()
 }
+
+// ---------------------------------------------------------------------------
+// Alternative scalar types for the `schema_types` option: the type is named by a
+// package-level variable (the generator emits the name as an expression), the
+// value is a struct with Null / Unknown / Value.
+
+type altType struct{ kind string }
+
+// AltStringType, AltInt64Type and AltBoolType are the attr.Type values a
+// configuration can name in schema_types.
+var (
+	AltStringType attr.Type = altType{"string"}
+	AltInt64Type  attr.Type = altType{"int64"}
+	AltBoolType   attr.Type = altType{"bool"}
+)
+
+func (t altType) tf() tftypes.Type {
+	switch t.kind {
+	case "int64":
+		return tftypes.Number
+	case "bool":
+		return tftypes.Bool
+	}
+	return tftypes.String
+}
+func (t altType) TerraformType(context.Context) tftypes.Type { return t.tf() }
+func (t altType) String() string                             { return "tfx.Alt(" + t.kind + ")" }
+func (t altType) Equal(o attr.Type) bool {
+	other, ok := o.(altType)
+	return ok && other == t
+}
+func (t altType) ApplyTerraform5AttributePathStep(step tftypes.AttributePathStep) (interface{}, error) {
+	return nil, fmt.Errorf("cannot apply AttributePathStep %T to %s", step, t.String())
+}
+func (t altType) ValueFromTerraform(_ context.Context, in tftypes.Value) (attr.Value, error) {
+	unknown, null := !in.IsKnown(), in.IsKnown() && in.IsNull()
+	switch t.kind {
+	case "int64":
+		v := AltInt64{Unknown: unknown, Null: null}
+		if !unknown && !null {
+			var f big.Float
+			if err := in.As(&f); err != nil {
+				return nil, err
+			}
+			i, acc := f.Int64()
+			if acc != big.Exact {
+				return nil, fmt.Errorf("%s is not an int64", f.String())
+			}
+			v.Value = i
+		}
+		return v, nil
+	case "bool":
+		v := AltBool{Unknown: unknown, Null: null}
+		if !unknown && !null {
+			if err := in.As(&v.Value); err != nil {
+				return nil, err
+			}
+		}
+		return v, nil
+	}
+	v := AltString{Unknown: unknown, Null: null}
+	if !unknown && !null {
+		if err := in.As(&v.Value); err != nil {
+			return nil, err
+		}
+	}
+	return v, nil
+}
+
+func altTF(t tftypes.Type, null, unknown bool, val interface{}) (tftypes.Value, error) {
+	if null {
+		return tftypes.NewValue(t, nil), nil
+	}
+	if unknown {
+		return tftypes.NewValue(t, tftypes.UnknownValue), nil
+	}
+	return tftypes.NewValue(t, val), nil
+}
+
+// AltString is the value of AltStringType.
+type AltString struct {
+	Unknown bool
+	Null    bool
+	Value   string
+}
+
+func (v AltString) Type(context.Context) attr.Type { return AltStringType }
+func (v AltString) ToTerraformValue(context.Context) (tftypes.Value, error) {
+	return altTF(tftypes.String, v.Null, v.Unknown, v.Value)
+}
+func (v AltString) Equal(o attr.Value) bool { x, ok := o.(AltString); return ok && x == v }
+func (v AltString) IsNull() bool            { return v.Null }
+func (v AltString) IsUnknown() bool         { return v.Unknown }
+func (v AltString) String() string          { return fmt.Sprintf("AltString(%q,null=%v,unknown=%v)", v.Value, v.Null, v.Unknown) }
+
+// AltInt64 is the value of AltInt64Type.
+type AltInt64 struct {
+	Unknown bool
+	Null    bool
+	Value   int64
+}
+
+func (v AltInt64) Type(context.Context) attr.Type { return AltInt64Type }
+func (v AltInt64) ToTerraformValue(context.Context) (tftypes.Value, error) {
+	return altTF(tftypes.Number, v.Null, v.Unknown, new(big.Float).SetPrec(64).SetInt64(v.Value))
+}
+func (v AltInt64) Equal(o attr.Value) bool { x, ok := o.(AltInt64); return ok && x == v }
+func (v AltInt64) IsNull() bool            { return v.Null }
+func (v AltInt64) IsUnknown() bool         { return v.Unknown }
+func (v AltInt64) String() string          { return fmt.Sprintf("AltInt64(%d,null=%v,unknown=%v)", v.Value, v.Null, v.Unknown) }
+
+// AltBool is the value of AltBoolType.
+type AltBool struct {
+	Unknown bool
+	Null    bool
+	Value   bool
+}
+
+func (v AltBool) Type(context.Context) attr.Type { return AltBoolType }
+func (v AltBool) ToTerraformValue(context.Context) (tftypes.Value, error) {
+	return altTF(tftypes.Bool, v.Null, v.Unknown, v.Value)
+}
+func (v AltBool) Equal(o attr.Value) bool { x, ok := o.(AltBool); return ok && x == v }
+func (v AltBool) IsNull() bool            { return v.Null }
+func (v AltBool) IsUnknown() bool         { return v.Unknown }
+func (v AltBool) String() string          { return fmt.Sprintf("AltBool(%v,null=%v,unknown=%v)", v.Value, v.Null, v.Unknown) }
